@@ -123,6 +123,12 @@ pub trait Check: Sync + Send {
     fn stub_components(&self) -> Vec<&'static str> {
         Vec::new()
     }
+    /// For properties whose violation *is* nondeterminism (C16, C09 live
+    /// randomness): a finding whose replay does not reproduce byte-identically
+    /// is still reported as a violation (with a note) instead of a harness error.
+    fn nondeterminism_is_finding(&self) -> bool {
+        false
+    }
     /// Extra command-line modes of a check binary (e.g. the child side of a
     /// fresh-process comparison). Return Some(exit code) if handled.
     fn custom_command(&self, _args: &[String]) -> Option<i32> {
@@ -299,6 +305,27 @@ pub fn main_for<C: Check>(check: C) -> ! {
                 std::process::exit(2);
             });
             replay(&check, Path::new(path))
+        }
+        Some("--range") => {
+            // child side of --locate-abort: run indices a..b sequentially
+            let a: u64 = args.get(1).and_then(|s| s.parse().ok()).unwrap_or(0);
+            let b: u64 = args.get(2).and_then(|s| s.parse().ok()).unwrap_or(0);
+            let tier = tier_from_env(Tier::Quick);
+            let seed = env_u64("VERIF_SEED").unwrap_or(DEFAULT_SEED);
+            let mut obs = Obs::default();
+            for i in a..b {
+                let mut g = Xo::derive(seed, check.id(), 0, i);
+                let sc = check.generate(&mut g, tier, i);
+                let _ = catch_unwind(AssertUnwindSafe(|| check.execute(&sc, &mut obs)));
+            }
+            0
+        }
+        Some("--locate-abort") => {
+            let tier = match args.get(1).map(String::as_str) {
+                Some("thorough") => Tier::Thorough,
+                _ => Tier::Quick,
+            };
+            locate_abort(&check, tier)
         }
         Some("--audit") => {
             let n = args.get(1).and_then(|s| s.parse().ok()).unwrap_or(2000);
@@ -621,30 +648,44 @@ fn run_tier<C: Check>(check: &C, tier: Tier) -> i32 {
             eprintln!("HARNESS-ERROR: cannot write replay {}: {e}", file.display());
             return 2;
         }
-        // fresh-process reproduction
-        let ok = std::env::current_exe()
-            .ok()
-            .and_then(|exe| {
-                std::process::Command::new(exe)
-                    .arg("--replay")
-                    .arg(&file)
-                    .env("VERIF_ROOT", &root)
-                    .output()
-                    .ok()
-            })
-            .map(|o| {
-                let out = String::from_utf8_lossy(&o.stdout).to_string();
-                out.contains(&format!("key={} digest={:016x}", v.key, msg_digest(&v)))
-            })
-            .unwrap_or(false);
-        if !ok {
-            eprintln!(
-                "HARNESS-ERROR: property={} violation key={} did not reproduce from {} in a fresh process",
-                check.id(),
-                v.key,
-                file.display()
-            );
-            return 2;
+        // fresh-process reproduction (same key; normally also the same message digest)
+        let mut exact = false;
+        let mut same_key = false;
+        for _attempt in 0..3 {
+            let out = std::env::current_exe().ok().and_then(|exe| {
+                std::process::Command::new(exe).arg("--replay").arg(&file).env("VERIF_ROOT", &root).output().ok()
+            });
+            if let Some(o) = out {
+                let text = String::from_utf8_lossy(&o.stdout).to_string();
+                if text.contains(&format!("key={} digest={:016x}", v.key, msg_digest(&v))) {
+                    exact = true;
+                    same_key = true;
+                    break;
+                }
+                if text.contains(&format!("key={} digest=", v.key)) {
+                    same_key = true;
+                }
+            }
+            if !check.nondeterminism_is_finding() {
+                break;
+            }
+        }
+        if !exact {
+            if check.nondeterminism_is_finding() {
+                println!(
+                    "  note: replay of key={} reproduced {} — the finding is itself nondeterministic behaviour",
+                    v.key,
+                    if same_key { "with different values" } else { "only intermittently" }
+                );
+            } else {
+                eprintln!(
+                    "HARNESS-ERROR: property={} violation key={} did not reproduce from {} in a fresh process",
+                    check.id(),
+                    v.key,
+                    file.display()
+                );
+                return 2;
+            }
         }
         let kf = known
             .findings
@@ -775,6 +816,84 @@ fn report_hang<C: Check>(check: &C, root: &Path, seed: u64, tier: Tier, run: u64
         file.display()
     );
     std::process::exit(2);
+}
+
+/// The process died abnormally (abort / stack overflow / allocation failure)
+/// during a tier run: find the first run index whose execution kills a child
+/// process, write its scenario as a replay file and report it.
+fn locate_abort<C: Check>(check: &C, tier: Tier) -> i32 {
+    let root = verif_root();
+    let seed = env_u64("VERIF_SEED").unwrap_or(DEFAULT_SEED);
+    let total = env_u64("VERIF_RUNS").unwrap_or_else(|| check.runs(tier));
+    let survives = |a: u64, b: u64| -> bool {
+        std::env::current_exe()
+            .ok()
+            .and_then(|exe| {
+                std::process::Command::new(exe)
+                    .arg("--range")
+                    .arg(a.to_string())
+                    .arg(b.to_string())
+                    .env("VERIF_TIER", tier.name())
+                    .env("VERIF_SEED", seed.to_string())
+                    .stdout(std::process::Stdio::null())
+                    .stderr(std::process::Stdio::null())
+                    .status()
+                    .ok()
+            })
+            .is_some_and(|st| st.success())
+    };
+    // coarse scan in parallel, then bisect the first dying chunk
+    let chunks = 64u64.min(total.max(1));
+    let size = total.div_ceil(chunks);
+    let dying: Vec<u64> = std::thread::scope(|s| {
+        let hs: Vec<_> = (0..chunks)
+            .map(|c| {
+                let survives = &survives;
+                s.spawn(move || {
+                    let (a, b) = (c * size, ((c + 1) * size).min(total));
+                    if a < b && !survives(a, b) {
+                        Some(c)
+                    } else {
+                        None
+                    }
+                })
+            })
+            .collect();
+        hs.into_iter().filter_map(|h| h.join().ok().flatten()).collect()
+    });
+    let Some(first) = dying.into_iter().min() else {
+        eprintln!("HARNESS-ERROR: property={} the tier run died abnormally but no run index reproduces it in isolation", check.id());
+        return 2;
+    };
+    let (mut lo, mut hi) = (first * size, ((first + 1) * size).min(total));
+    while hi - lo > 1 {
+        let mid = lo + (hi - lo) / 2;
+        if survives(lo, mid) {
+            lo = mid;
+        } else {
+            hi = mid;
+        }
+    }
+    let run = lo;
+    let mut g = Xo::derive(seed, check.id(), 0, run);
+    let sc = check.generate(&mut g, tier, run);
+    let file = root.join("replays").join(format!("{}-abort-{}-{}.json", check.id(), seed, run));
+    let rf = ReplayFile {
+        property: check.id().to_string(),
+        clause: "never-panics".into(),
+        key: "process-abort".into(),
+        message: format!("executing run {run} kills the process (abort / stack overflow / failed allocation)"),
+        verif_seed: seed,
+        run,
+        tier: tier.name().to_string(),
+        shrink_steps: 0,
+        scenario: serde_json::to_value(&sc).unwrap_or(Value::Null),
+    };
+    let _ = std::fs::create_dir_all(root.join("replays"));
+    let _ = std::fs::write(&file, serde_json::to_string_pretty(&rf).unwrap_or_default());
+    println!("  executing run {run} kills the process (abort / stack overflow / failed allocation); replaying the file dies the same way");
+    println!("VIOLATION property={} replay={}", check.id(), file.display());
+    1
 }
 
 fn sanitize(s: &str) -> String {
